@@ -71,6 +71,7 @@ import (
 const modPath = "github.com/functionx/fx-core/v8/"
 
 type env struct {
+	mvbN map[string]int
 	s   *hx.Suite
 	out *hx.Out
 	rng *rand.Rand
@@ -119,6 +120,9 @@ func (e *env) checkDecoded(url string, m proto.Message, class string, wire []byt
 	}
 	if vb, ok := m.(sdk.HasValidateBasic); ok {
 		res := hx.Try(func() error { return vb.ValidateBasic() })
+		if fx {
+			e.mvb(url, m, class, res)
+		}
 		switch {
 		case isPanic(res):
 			e.out.Count("vb-panic")
@@ -143,6 +147,32 @@ func (e *env) checkDecoded(url string, m proto.Message, class string, wire []byt
 	} else {
 		e.out.Count("signers-err")
 	}
+}
+
+// mvb: the regenerated validation program (Gen/C20Msg.lean) must give the verdict of the real ValidateBasic
+func (e *env) mvb(url string, m proto.Message, class, res string) {
+	if e.mvbN == nil {
+		e.mvbN = map[string]int{}
+	}
+	always := strings.HasSuffix(class, " absent") || strings.HasSuffix(class, " empty") || class == "valid template" || strings.HasPrefix(class, "corpus") || strings.HasPrefix(class, "zero value")
+	if !always && e.mvbN[url] >= hx.N(120, 3000) {
+		return
+	}
+	line, why := e.msgProgLine(m)
+	if line == "" {
+		e.out.Count("mvb-skipped: " + why)
+		return
+	}
+	e.mvbN[url]++
+	verdict := "err"
+	switch {
+	case isPanic(res):
+		verdict = "panic"
+	case res == "ok":
+		verdict = "ok"
+	}
+	e.out.Count("mvb-" + verdict)
+	e.out.Emit(line, verdict)
 }
 
 // fieldOf extracts the field path of a mutation class ("field 4.2 absent" -> "4.2")
